@@ -167,4 +167,46 @@ PROPS = {
              "quick": {"checks": 150, "shards": 1, "timeout": 300}, "thorough": {"checks": 400, "shards": 8, "timeout": 1500, "race": True}},
         ],
     },
+    "C17": {
+        "level": "fault_enumeration",
+        "evaluations_from_extra": "faulted_operations",
+        "rule": "rapid-generated inputs (C05-style merge plans with doc values and thesauri, vector fields under the tag) x operation in {WriteTo, Persist, Merge} x DefaultFileMergerBufferSize in {1,7,64,4096,1 MiB} x injected write failure at byte offset n: WriteTo - every offset 0..size-1 through a failing io.Writer; Persist/Merge - through RLIMIT_FSIZE=n with SIGXFSZ ignored (the kernel accepts exactly n bytes of the destination file): every offset when the output is <= 600 bytes (thorough: every offset always), else the first and last 64 offsets, both sides of up to 40 buffer-flush boundaries and of every 4 KiB boundary, and 8..24 generated offsets; plus the fault-free run (footer/CRC, re-open, full observation == model) and a path in a missing directory; oracle: fault => error returned and no file at the path; non-trivial = a case whose output has >= 1 document; the evidence counts faulted operations and those strictly inside the body",
+        "assumptions": COMMON_ASSUME + ["only 'write fails at offset n' faults are injected; fsync/close failures are not reachable offline", "RLIMIT_FSIZE is process-wide: nothing else writes files while an operation runs under a lowered limit (single-goroutine check; verified by a self-test at start)"],
+        "technique": "fault enumeration over write offsets (failing io.Writer / RLIMIT_FSIZE) on rapid-generated inputs, with a re-open + reference-model oracle for the fault-free run",
+        "level_text": "Fault enumeration: for every generated input the injectable write-failure points of the operation are enumerated (completely for small outputs, by flush-boundary classes for larger ones).",
+        "level_note": "Trusts the kernel's RLIMIT_FSIZE semantics (self-tested) and the reference model.",
+        "stages": [
+            rapid_stage("write-faults", "TestC17", 40, 150, tshards=12, qtimeout=600),
+            rapid_stage("write-faults-vectors", "TestC17", 12, 60, tags="verif,vectors", tshards=4, qtimeout=600),
+        ],
+    },
+    "C18": {
+        "level": "fault_enumeration",
+        "evaluations_from_extra": "merges_executed",
+        "rule": "rapid-generated merge plans (doc values, thesauri; vector fields under the tag) x DefaultFileMergerBufferSize in {1,7,64,4096,1 MiB} x closure point of the close channel: closed before the call; closed inside the k-th ReportBytesWritten callback for every k <= W (W = number of reports of the uncancelled run; every k when W <= 120, else ~120 evenly spaced, thorough 400); under the vectors tag closed at the j-th vector-engine operation (j <= 60); never closed; and 2..6 asynchronous closers after a generated spin count; oracle: result is either (closed error, no file) or (nil, a complete file: footer/CRC valid, re-opened observation == model, reported size == file length); pre-closed => the closed error; after every attempt the fake engine's live-index count is back at baseline; the evidence reports how many closure points produced the closed error per progress decile; non-trivial = a plan whose output has >= 1 document",
+        "assumptions": COMMON_ASSUME + ["the moment of closing is made deterministic by closing inside the merge's own stats-reporter callback (between two isClosed polls); free-running asynchronous closers only sample schedules"],
+        "technique": "fault enumeration over cancellation points (closure at the k-th write report / j-th engine operation) on rapid-generated merge plans, with a re-open + reference-model oracle",
+        "level_text": "Enumeration of the closure points the merge exposes through its write reports, for every generated plan and buffer size.",
+        "level_note": "Trusts the reference model; under the vectors tag the fake engine.",
+        "stages": [
+            rapid_stage("cancel", "TestC18", 30, 120, tshards=12, qtimeout=600),
+            rapid_stage("cancel-vectors", "TestC18", 12, 60, tags="verif,vectors", tshards=4, qtimeout=600),
+        ],
+    },
+    "C20": {
+        "level": "exploration",
+        "rule": "enum: every sequence over {AddRef, DecRef, Close} whose model count stays positive until its last operation, which brings it to zero, up to length 9 (quick: 550 sequences) / 13 (thorough), each on a freshly opened 3-document segment with a read between every two operations (full observation for short sequences and at both ends, a multi-API light read otherwise, with SetPanicOnFault), every release must return nil, and /proc/self/maps + /proc/self/fd must show the file mapped/open exactly once while the count is positive and not at all after the last operation. random: rapid sequences with up to 28 AddRefs (length <= 57). holders: 1..12 goroutines holding one reference each (reads, extra AddRef/DecRef pairs, final DecRef) concurrent with the opener's reads and Close (thorough: race detector). in-memory: build, read, AddRef/DecRef/Close of in-memory segments (fake-engine live count back to baseline under the tag); non-trivial = a sequence using AddRef, DecRef and Close (enum/random), >= 2 holders (holders)",
+        "assumptions": COMMON_ASSUME + ["nothing is used after the final release; holders obtain their reference from the opener before they start (as scorch does)"],
+        "technique": "bounded-exhaustive enumeration of reference-count sequences with OS-level observation of the mapping/descriptor, plus property-based testing (rapid) of longer sequences and concurrent holders",
+        "level_text": "Small-scope exhaustive over balanced sequences up to the stated length (flagged exhaustive), randomised beyond; concurrent holders sample schedules.",
+        "level_note": "Trusts /proc/self/maps and /proc/self/fd as ground truth for mapping and descriptor lifetime.",
+        "stages": [
+            {"name": "enum", "test": "TestC20Enum", "tags": "verif", "quick": {"shards": 2, "timeout": 300}, "thorough": {"shards": 14, "timeout": 2400}},
+            rapid_stage("random", "TestC20Random", 200, 2000),
+            {"name": "holders", "test": "TestC20Holders", "tags": "verif",
+             "quick": {"checks": 150, "shards": 1, "timeout": 300}, "thorough": {"checks": 600, "shards": 8, "timeout": 1500, "race": True}},
+            {"name": "in-memory", "test": "TestC20InMemory", "tags": "verif", "quick": {"shards": 1, "timeout": 120}, "thorough": {"shards": 1, "timeout": 120}},
+            {"name": "in-memory-vectors", "test": "TestC20InMemory", "tags": "verif,vectors", "quick": {"shards": 1, "timeout": 120}, "thorough": {"shards": 1, "timeout": 120}},
+        ],
+    },
 }
